@@ -5,10 +5,12 @@ From PTK Require Import Lib.Sx Model.C20_StdoutProxy.
 Import ListNotations.
 Open Scope nat_scope.
 
+Definition pred_opt (k : nat) : option nat := match k with O => None | S p => Some p end.
+
 Fixpoint wait_ok (k : nat) (w : list sec) : Prop :=
   match w with
   | [] => True
-  | x :: r => s_own x = k /\ (exists p, s_prev x = Some p /\ S p = k) /\ wait_ok (S k) r
+  | x :: r => s_own x = k /\ s_prev x = pred_opt k /\ wait_ok (S k) r
   end.
 
 (* k = number of sections started so far = the id the next one to start has *)
@@ -33,8 +35,7 @@ Proof.
 Qed.
 
 Lemma wait_ok_app : forall w k x,
-  wait_ok k w -> s_own x = k + length w ->
-  (exists p, s_prev x = Some p /\ S p = k + length w) ->
+  wait_ok k w -> s_own x = k + length w -> s_prev x = pred_opt (k + length w) ->
   wait_ok k (w ++ [x]).
 Proof.
   induction w as [|y w IH]; intros k x Hw Ho Hp; cbn [app wait_ok length] in *.
@@ -42,18 +43,18 @@ Proof.
   - destruct Hw as [H1 [H2 H3]]. repeat split; try assumption.
     apply IH; [assumption| |].
     + rewrite Ho. lia.
-    + destruct Hp as [p [Hp1 Hp2]]. exists p. split; [assumption|lia].
+    + rewrite Hp. f_equal. lia.
 Qed.
 
 Lemma wait_ok_nth : forall w k i x,
   wait_ok k w -> nth_error w i = Some x ->
-  s_own x = k + i /\ exists p, s_prev x = Some p /\ S p = k + i.
+  s_own x = k + i /\ s_prev x = pred_opt (k + i).
 Proof.
   induction w as [|y w IH]; intros k i x Hw Hn.
   - destruct i; discriminate.
   - cbn [wait_ok] in Hw. destruct Hw as [H1 [H2 H3]]. destruct i as [|i]; cbn [nth_error] in Hn.
     + injection Hn as <-. rewrite Nat.add_0_r. split; assumption.
-    + destruct (IH _ _ _ H3 Hn) as [A [p [B C]]]. split; [lia|]. exists p. split; [assumption|lia].
+    + destruct (IH _ _ _ H3 Hn) as [A B]. split; [lia|]. rewrite B. f_equal. lia.
 Qed.
 
 (* a section starting as number k = length started, nobody active *)
@@ -109,21 +110,20 @@ Proof.
     + split; [reflexivity|assumption].
 Qed.
 
-Lemma submit_CI : forall run p c o, CI c -> CI (fst (submit run p c o)).
+Lemma submit_CI : forall run hold p c o, CI c -> CI (fst (submit run hold p c o)).
 Proof.
-  intros run p c o I. unfold submit. destruct (fdone c (lastf c)) eqn:F.
-  - destruct (idle_when_last_done c I F) as [W [N [A All]]].
+  intros run hold p c o I. unfold submit. destruct (fdone c (lastf c) && negb hold) eqn:FH.
+  - apply andb_true_iff in FH. destruct FH as [F _].
+    destruct (idle_when_last_done c I F) as [W [N [A All]]].
     destruct I as [Hs Hd Hw Hn Hl Ha].
     apply start_ok; cbn [started donef waitq nextf lastf active s_own]; try assumption.
     + rewrite W. exact I.
     + rewrite W. cbn [length]. lia.
     + reflexivity.
   - destruct I as [Hs Hd Hw Hn Hl Ha]. cbn [fst].
-    assert (exists n, nextf c = S n) as [n En].
-    { destruct (nextf c) as [|n] eqn:En; [|now exists n]. rewrite Hl in F. discriminate. }
     constructor; cbn [started donef waitq nextf lastf active]; try assumption.
     + apply wait_ok_app; cbn [s_own s_prev]; [assumption|lia|].
-      exists n. split; [now rewrite Hl, En|lia].
+      rewrite Hl, Hn. reflexivity.
     + rewrite app_length. cbn [length]. lia.
     + reflexivity.
 Qed.
@@ -138,12 +138,16 @@ Lemma wake_head : forall c i x,
   (forall j, j < length (started c) -> In j (donef c)).
 Proof.
   intros c i x I Hn F. destruct I as [Hs Hd Hw Hnx Hl Ha].
-  destruct (wait_ok_nth _ _ _ _ Hw Hn) as [O [p [P1 P2]]].
-  rewrite P1 in F. apply fdone_some in F. pose proof (Hd _ F) as Lt.
-  assert (i = 0) by lia. subst i. split; [reflexivity|].
-  destruct (active c) as [a|].
-  - destruct Ha as [A1 [A2 A3]]. assert (a = p) by lia. subst. contradiction.
-  - split; [reflexivity|]. split; [lia|assumption].
+  destruct (wait_ok_nth _ _ _ _ Hw Hn) as [O P1].
+  rewrite P1 in F. destruct (length (started c) + i) as [|p] eqn:E; cbn [pred_opt] in F.
+  - assert (i = 0 /\ length (started c) = 0) as [E1 E2] by lia. subst i. split; [reflexivity|].
+    destruct (active c) as [a|]; [destruct Ha; lia|].
+    split; [reflexivity|]. split; [lia|assumption].
+  - apply fdone_some in F. pose proof (Hd _ F) as Lt.
+    assert (i = 0) by lia. subst i. split; [reflexivity|].
+    destruct (active c) as [a|].
+    + destruct Ha as [A1 [A2 A3]]. assert (a = p) by lia. subst. contradiction.
+    + split; [reflexivity|]. split; [lia|assumption].
 Qed.
 
 Lemma wake_CI : forall run c i x o,
@@ -169,43 +173,160 @@ Proof.
   - intros j Hj. destruct (Nat.eq_dec j own) as [E|E]; [left; now symmetry|right; apply A3; lia].
 Qed.
 
-Lemma CI_step : forall s l, CI (ch s) -> CI (ch (step s l)).
+Lemma after_start_wait : forall run x k, cprwait (after_start run x k) = cprwait k.
 Proof.
-  intros s l I. destruct l; cbn [step ch]; try assumption.
-  - destruct (fth (px s)) as [| | |acc dn [k|]| |]; try assumption.
-    destruct (Nat.eqb k (lid (en s)) && negb (lclosed (en s))); assumption.
-  - destruct (negb (app (en s)) && negb (running (en s))); assumption.
-  - destruct (app (en s) && running (en s)); assumption.
-  - destruct (app (en s) && negb (running (en s)) && fdone (ch s) (lastf (ch s))); assumption.
-  - destruct (negb (app (en s)) && negb (lclosed (en s))); assumption.
-  - destruct (lclosed (en s)); [assumption|]. destruct (loopq (en s)); [assumption|].
-    destruct (app (en s) && (running (en s) || negb (fdone (ch s) (lastf (ch s))))); [|assumption].
-    pose proof (submit_CI (running (en s)) (PWrite t) (ch s) (out s) I) as H.
-    destruct (submit _ _ _ _). exact H.
-  - destruct (app (en s) && running (en s) && _); assumption.
-  - destruct (app (en s) && running (en s)); [|assumption].
-    pose proof (submit_CI (running (en s)) PExt (ch s) (out s) I) as H.
-    destruct (submit _ _ _ _). exact H.
-  - destruct (active (ch s)) as [own|] eqn:A; [|assumption]. cbn [ch]. now apply extend_CI.
-  - destruct (nth_error (waitq (ch s)) i) as [x|] eqn:Hn; [|assumption].
-    destruct (fdone (ch s) (s_prev x)) eqn:F; [|assumption].
-    pose proof (wake_CI (running (en s)) (ch s) i x (out s) I Hn F) as H.
-    destruct (start_sec _ _ _ _). exact H.
+  intros run x k. unfold after_start, request. destruct (s_pay x); [|reflexivity].
+  destruct (cpron k && run && (cprsup k || Nat.eqb (cprq k) 0)); reflexivity.
+Qed.
+
+Lemma start_sec_waitq : forall run x c o, waitq (fst (start_sec run x c o)) = waitq c.
+Proof. intros. unfold start_sec. destruct (s_pay x); reflexivity. Qed.
+
+Lemma start_sec_done : forall run x c o d, In d (donef c) -> In d (donef (fst (start_sec run x c o))).
+Proof. intros run x c o d H. unfold start_sec. destruct (s_pay x); cbn [fst donef]; [right|]; exact H. Qed.
+
+(* the head of waitq may leave: resume / wake of the head *)
+Lemma pop_CI : forall run c x w o,
+  CI c -> waitq c = x :: w -> fdone c (s_prev x) = true ->
+  CI (fst (start_sec run x (mkch (nextf c) (lastf c) (donef c) w (active c) (started c)) o)).
+Proof.
+  intros run c x w o I W F.
+  assert (Hn : nth_error (waitq c) 0 = Some x) by (rewrite W; reflexivity).
+  pose proof (wake_CI run c 0 x o I Hn F) as H. rewrite W in H. exact H.
+Qed.
+
+Lemma submit_wait : forall run hold p c o,
+  fdone c (lastf c) && negb hold = false ->
+  fst (submit run hold p c o) =
+    mkch (S (nextf c)) (Some (nextf c)) (donef c) (waitq c ++ [mksec (lastf c) (nextf c) p]) (active c) (started c)
+  /\ snd (submit run hold p c o) = o.
+Proof. intros run hold p c o H. unfold submit. rewrite H. split; reflexivity. Qed.
+
+Lemma resume_facts : forall run c k o x w,
+  CI c -> waitq c = x :: w -> fdone c (s_prev x) = true ->
+  CI (fst (fst (resume run c k o))) /\ cprwait (snd (fst (resume run c k o))) = false.
+Proof.
+  intros run c k o x w I W F. unfold resume. rewrite W.
+  pose proof (pop_CI run c x w o I W F) as H.
+  destruct (start_sec run x _ o) as [c' o']. cbn [fst snd] in *. split; [exact H|].
+  rewrite after_start_wait. reflexivity.
+Qed.
+
+Lemma submit_cpr_wait : forall s p c' o',
+  CI (ch s) ->
+  (cprwait (cp s) = true -> exists x w, waitq (ch s) = x :: w /\ fdone (ch s) (s_prev x) = true) ->
+  submit (running (en s)) (cpr_pending (cp s)) p (ch s) (out s) = (c', o') ->
+  cprwait (submit_cpr (running (en s)) p (ch s) (cp s)) = true ->
+  exists x w, waitq c' = x :: w /\ fdone c' (s_prev x) = true.
+Proof.
+  intros s p c' o' I Wt E. unfold submit_cpr. destruct (fdone (ch s) (lastf (ch s))) eqn:F.
+  - destruct (idle_when_last_done (ch s) I F) as [W _].
+    destruct (cpr_pending (cp s)) eqn:P.
+    + intros _. destruct (submit_wait (running (en s)) true p (ch s) (out s)) as [H1 _].
+      { rewrite F. reflexivity. }
+      rewrite E in H1. cbn [fst] in H1. subst c'. cbn [waitq]. rewrite W. cbn [app].
+      eexists. exists []. split; [reflexivity|]. cbn [s_prev]. exact F.
+    + rewrite after_start_wait. intros Hw. destruct (Wt Hw) as [x [w [W' _]]]. rewrite W in W'. discriminate.
+  - intros Hw. destruct (Wt Hw) as [x [w [W Fx]]].
+    destruct (submit_wait (running (en s)) (cpr_pending (cp s)) p (ch s) (out s)) as [H1 _].
+    { rewrite F. reflexivity. }
+    rewrite E in H1. cbn [fst] in H1. subst c'. cbn [waitq]. rewrite W. cbn [app].
+    exists x. eexists. split; [reflexivity|]. exact Fx.
+Qed.
+
+(* state invariant: the chain invariant, and a section sitting in
+   wait_for_cpr_responses() is the head of waitq with its predecessor done *)
+Definition SI (s : st) : Prop :=
+  CI (ch s) /\
+  (cprwait (cp s) = true -> exists x w, waitq (ch s) = x :: w /\ fdone (ch s) (s_prev x) = true).
+
+Lemma fdone_mono : forall c c' o, (forall d, In d (donef c) -> In d (donef c')) ->
+  fdone c o = true -> fdone c' o = true.
+Proof.
+  intros c c' [p|] H F; [|reflexivity]. apply fdone_some. apply H. now apply fdone_some.
+Qed.
+
+Lemma SI_step : forall s l, SI s -> SI (step s l).
+Proof.
+  intros s l [I Wt]. destruct l; cbn [step]; try (split; assumption).
+  - (* FDeliver *)
+    destruct (fth (px s)) as [| | |acc dn [k|]| |]; try (split; assumption).
+    destruct (Nat.eqb k (lid (en s)) && negb (lclosed (en s))); split; assumption.
+  - destruct (negb (app (en s)) && negb (running (en s))); [|split; assumption].
+    split; [assumption|]. cbn [cp ch]. unfold request.
+    destruct (cpron (cp s) && true && (cprsup (cp s) || Nat.eqb (cprq (cp s)) 0)); assumption.
+  - destruct (app (en s) && running (en s)); split; assumption.
+  - destruct (app (en s) && negb (running (en s)) && fdone (ch s) (lastf (ch s)) && Nat.eqb (cprq (cp s)) 0); split; assumption.
+  - destruct (negb (app (en s)) && negb (lclosed (en s))); split; assumption.
+  - (* LoopStep *)
+    destruct (lclosed (en s)); [split; assumption|]. destruct (loopq (en s)); [split; assumption|].
+    destruct (app (en s) && (running (en s) || negb (fdone (ch s) (lastf (ch s))))); [|split; assumption].
+    pose proof (submit_CI (running (en s)) (cpr_pending (cp s)) (PWrite t) (ch s) (out s) I) as H.
+    destruct (submit (running (en s)) (cpr_pending (cp s)) (PWrite t) (ch s) (out s)) as [c' o'] eqn:E.
+    split; [exact H|]. cbn [cp ch]. apply (submit_cpr_wait s (PWrite t) c' o' I Wt E).
+  - destruct (app (en s) && running (en s) && _); split; assumption.
+  - (* ExtBegin *)
+    destruct (app (en s) && running (en s)); [|split; assumption].
+    pose proof (submit_CI (running (en s)) (cpr_pending (cp s)) PExt (ch s) (out s) I) as H.
+    destruct (submit (running (en s)) (cpr_pending (cp s)) PExt (ch s) (out s)) as [c' o'] eqn:E.
+    split; [exact H|]. cbn [cp ch]. apply (submit_cpr_wait s PExt c' o' I Wt E).
+  - (* ExtEnd *)
+    destruct (active (ch s)) as [own|] eqn:A; [|split; assumption]. split; [now apply extend_CI|].
+    cbn [cp ch waitq]. unfold request.
+    destruct (cpron (cp s) && running (en s) && (cprsup (cp s) || Nat.eqb (cprq (cp s)) 0)); cbn [cprwait];
+      intros Hw; destruct (Wt Hw) as [x [w [W F]]]; exists x, w; (split; [assumption|]);
+      (eapply fdone_mono; [|exact F]); cbn [donef]; intros d Hd; right; exact Hd.
+  - (* Wake *)
+    destruct (nth_error (waitq (ch s)) i) as [x|] eqn:Hn; [|split; assumption].
+    destruct (fdone (ch s) (s_prev x) && negb (cprwait (cp s))) eqn:FW; [|split; assumption].
+    apply andb_true_iff in FW. destruct FW as [F NW]. apply negb_true_iff in NW.
+    destruct (cpr_pending (cp s)).
+    + split; [assumption|]. cbn [cp ch set_wait cprwait]. intros _.
+      destruct (wake_head (ch s) i x I Hn F) as [E _]. subst i.
+      destruct (waitq (ch s)) as [|y w]; [discriminate|]. cbn [nth_error] in Hn. injection Hn as ->.
+      exists x, w. split; [reflexivity|assumption].
+    + pose proof (wake_CI (running (en s)) (ch s) i x (out s) I Hn F) as H.
+      destruct (start_sec _ _ _ _) as [c' o']. split; [exact H|].
+      cbn [cp ch]. rewrite after_start_wait, NW. discriminate.
+  - (* CprAnswer *)
+    destruct (app (en s) && cpron (cp s) && negb (Nat.eqb (cprq (cp s)) 0) && _); [|split; assumption].
+    destruct (cprwait (cp s) && _) eqn:G.
+    + apply andb_true_iff in G. destruct G as [G _]. destruct (Wt G) as [x [w [W F]]].
+      match goal with |- context [resume ?r ?c ?k ?o] =>
+        pose proof (resume_facts r c k o x w I W F) as [H1 H2]; destruct (resume r c k o) as [[c' k'] o'] end.
+      cbn [fst snd] in *. split; [exact H1|]. cbn [cp]. rewrite H2. discriminate.
+    + split; [assumption|]. exact Wt.
+  - (* CprTimeout *)
+    destruct (negb (Nat.eqb (cprq (cp s)) 0) && _); [|split; assumption].
+    destruct (cprwait (cp s)) eqn:G.
+    + destruct (Wt eq_refl) as [x [w [W F]]].
+      match goal with |- context [resume ?r ?c ?k ?o] =>
+        pose proof (resume_facts r c k o x w I W F) as [H1 H2]; destruct (resume r c k o) as [[c' k'] o'] end.
+      cbn [fst snd] in *. split; [exact H1|]. cbn [cp]. rewrite H2. discriminate.
+    + split; [assumption|]. cbn [cp cprwait]. intros Hc. discriminate.
+Qed.
+
+Lemma SI_init : forall c r, SI (init2 c r).
+Proof.
+  intros c r. split.
+  - constructor; cbn; try reflexivity; try tauto; intros; lia.
+  - cbn. discriminate.
 Qed.
 
 Lemma CI_init : forall c, CI (ch (init c)).
-Proof.
-  intros c. constructor; cbn; try reflexivity; try tauto; intros; lia.
-Qed.
+Proof. intros c. apply (SI_init c false). Qed.
 
-Lemma CI_run : forall ls s, CI (ch s) -> CI (ch (run s ls)).
+Lemma SI_run : forall ls s, SI s -> SI (run s ls).
 Proof.
   induction ls as [|l ls IH]; intros s I; [assumption|].
-  change (run s (l :: ls)) with (run (step s l) ls). apply IH. now apply CI_step.
+  change (run s (l :: ls)) with (run (step s l) ls). apply IH. now apply SI_step.
 Qed.
+
+Lemma CI_run2 : forall ls c r, CI (ch (run (init2 c r) ls)).
+Proof. intros. apply SI_run. apply SI_init. Qed.
 
 (* sections start in submission order: the n-th section to start is the one
    submitted n-th (ids are handed out in submission order) *)
-Lemma chain_fifo : forall c ls,
-  let s := run (init c) ls in started (ch s) = seq 0 (length (started (ch s))).
-Proof. intros c ls. cbn zeta. apply ci_started. apply CI_run. apply CI_init. Qed.
+Lemma chain_fifo : forall c r ls,
+  let s := run (init2 c r) ls in started (ch s) = seq 0 (length (started (ch s))).
+Proof. intros c r ls. cbn zeta. apply ci_started. apply CI_run2. Qed.
